@@ -170,8 +170,9 @@ def nonfinite_programs(ctx, count):
         lib.HOLD.clear()
         p = Program(libraries=("mpilot.libraries.eems.basic", "mpilot.libraries.eems.fuzzy", eems.ARRLIB))
         held = {}
+        fuzzy = i % 2 == 1          # every other program: producers declared fuzzy (a plug-in command), consumed by the fuzzy operators
         for k in range(2):
-            vals = [rng.choice([0.5, -1.0, 2.0, float("nan"), float("inf"), float("-inf"), 0.0]) for _ in range(n)]
+            vals = [rng.choice([0.5, -1.0, 1.0, float("nan"), 0.25, 0.0, float("nan")] if fuzzy else [0.5, -1.0, 2.0, float("nan"), float("inf"), float("-inf"), 0.0]) for _ in range(n)]
             mask = eems.rand_mask(rng, n, rng.choice(["none", "one", "some"]))
             if rng.random() < 0.4:
                 a = numpy.ma.array(numpy.array(vals).reshape(shape))                      # no mask array at all
@@ -179,20 +180,24 @@ def nonfinite_programs(ctx, count):
                 a = numpy.ma.array(numpy.array(vals).reshape(shape), mask=numpy.array(mask).reshape(shape))
             held["H%d" % k] = a
             lib.HOLD["H%d" % k] = a
-            p.add_command(lib.HeldData, "H%d" % k, OrderedDict())
+            p.add_command(lib.HeldFuzzy if fuzzy else lib.HeldData, "H%d" % k, OrderedDict())
             p.commands["H%d" % k].result
         snaps = {k: (numpy.ma.getmaskarray(a).copy(), numpy.ma.getdata(a).copy(), type(numpy.ma.getmask(a))) for k, a in held.items()}
         steps = []
         for j in range(rng.randrange(2, 5)):
-            cmd = rng.choice(["Copy", "Sum", "Maximum", "AMinusB", "Normalize", "CvtToFuzzy", "Mean", "Multiply"])
+            cmd = rng.choice(["FuzzyNot", "FuzzyOr", "FuzzyAnd", "FuzzyUnion", "FuzzyXOr", "CvtFromFuzzy", "FuzzyNot", "FuzzyOr"] if fuzzy else
+                             ["Copy", "Sum", "Maximum", "AMinusB", "Normalize", "CvtToFuzzy", "Mean", "Multiply"])
             how = eems.COMMANDS[cmd][1]
             args = OrderedDict()
             if how == "one":
                 args["InFieldName"] = Argument("InFieldName", rng.choice(["H0", "H1"]))
+                if cmd == "CvtFromFuzzy":
+                    args["TrueThreshold"] = Argument("TrueThreshold", 10)
+                    args["FalseThreshold"] = Argument("FalseThreshold", 0)
             elif how == "ab":
                 args["A"] = Argument("A", "H0"); args["B"] = Argument("B", "H1")
             else:
-                names = [rng.choice(["H0", "H1"]) for _ in range(rng.randrange(1, 3))]
+                names = [rng.choice(["H0", "H1"]) for _ in range(rng.randrange(2 if cmd == "FuzzyXOr" else 1, 3))]
                 args["InFieldNames"] = ListArgument("InFieldNames", names, 3, [3] * len(names))
             name = "T%d" % j
             try:
@@ -217,6 +222,29 @@ def nonfinite_programs(ctx, count):
         ctx.count("c09_nonfinite_programs")
 
 
+def identity_cases():
+    """parameters for which a command maps every value to itself (thresholds equal to the target range, unit weights, one input, curve / category
+    tables that repeat their argument) on data reaching outside that range: the place where a short-cut that hands back or edits the input pays off"""
+    from ..eems import Case
+    d = numpy.ma.array([-2.5, -1.0, 0.0, 0.5, 1.0, 3.0, 7.0], mask=[False, False, True, False, False, False, False])
+    f = numpy.ma.array([-1.0, -0.5, 0.0, 0.5, 1.0, 0.25, -0.25], mask=[False, True, False, False, False, False, False])
+    out = [Case("CvtToFuzzy", {"TrueThreshold": 1, "FalseThreshold": -1}, [d.copy()]), Case("CvtToFuzzy", {"TrueThreshold": 1.0, "FalseThreshold": -1.0}, [d.copy()]),
+           Case("CvtToFuzzy", {"TrueThreshold": -1, "FalseThreshold": 1}, [d.copy()]), Case("CvtToFuzzy", {"TrueThreshold": 7, "FalseThreshold": -2.5}, [d.copy()]),
+           Case("CvtFromFuzzy", {"TrueThreshold": 1, "FalseThreshold": -1}, [f.copy()]), Case("CvtFromFuzzy", {"TrueThreshold": 1.0, "FalseThreshold": -1.0}, [f.copy()]),
+           Case("Normalize", {"StartVal": -2.5, "EndVal": 7}, [d.copy()]), Case("Normalize", {"StartVal": 0, "EndVal": 1}, [numpy.ma.array([0.0, 0.5, 1.0, 0.25])]),
+           Case("NormalizeCurve", {"RawValues": [-2.5, 7], "NormalValues": [-2.5, 7]}, [d.copy()]),
+           Case("CvtToFuzzyCurve", {"RawValues": [-1, 1], "FuzzyValues": [-1, 1]}, [d.copy()]),
+           Case("NormalizeCat", {"RawValues": [-1, 0.5, 1, 3], "NormalValues": [-1, 0.5, 1, 3], "DefaultNormalValue": 0}, [d.copy()]),
+           Case("WeightedSum", {"Weights": [1]}, [d.copy()]), Case("WeightedSum", {"Weights": [1.0]}, [d.copy()]), Case("WeightedMean", {"Weights": [1]}, [d.copy()]),
+           Case("FuzzyWeightedUnion", {"Weights": [1]}, [f.copy()]), Case("FuzzyWeightedUnion", {"Weights": [1]}, [d.copy()]),
+           Case("FuzzySelectedUnion", {"TruestOrFalsest": "Truest", "NumberToConsider": 1}, [d.copy()])]
+    for cmd in ("Sum", "Multiply", "Minimum", "Maximum", "Mean", "Copy"):
+        out.append(Case(cmd, {}, [d.copy()]))
+    for cmd in ("FuzzyOr", "FuzzyAnd", "FuzzyUnion"):
+        out.append(Case(cmd, {}, [f.copy()]))
+    return out
+
+
 def run(ctx):
     ctx.check_proofs(["MPilot.Props.C09"])
     model = common.Model()
@@ -233,6 +261,7 @@ def run(ctx):
                 ctx.fail("%s modified one of its inputs: %s" % (case.cmd, d), case.describe())
     cases = [eems.gen_case(ctx.rng, cmd, style="valid", n=(1 if i % 2 == 0 and eems.COMMANDS[cmd][1] == "list" and cmd != "FuzzyXOr" else None))
              for cmd in eems.COMMANDS for i in range(ctx.budget(8, 300))]
+    cases += identity_cases()
     eems.run_stream(ctx, model, cases, "exec:all-commands:inputs-after", on_result=inputs_unchanged)
     # identity facts: which commands hand back one of their input objects (heap model `aliases`)
     answers = model.ask(["alias %s %d" % (c.spec(), len(c.inputs)) for c, _ in alias_cases])
